@@ -4,6 +4,7 @@ import gc
 import itertools
 import pickle
 import types
+import weakref
 from collections import Counter
 
 import mitmproxy.http
@@ -12,7 +13,7 @@ from mitmproxy.http import HTTPFlow
 from mitmproxy.test import tutils
 
 from hippolyzer.lib.base import llsd
-from hippolyzer.lib.proxy.caps import CapType
+from hippolyzer.lib.proxy.caps import CapType, CapData
 from hippolyzer.lib.proxy.http_flow import HippoHTTPFlow
 import hippolyzer.lib.proxy.http_proxy as http_proxy
 
@@ -46,7 +47,7 @@ MANIFEST = {
 
 FLOW_KINDS = ["region_cap", "seed", "eq", "uploader_temp", "asset_plain", "asset_wrapper", "proxy_only", "login", "unknown"]
 HOOK_BEHAVIOURS = ["raise", "take_never", "take_release_later", "take_release_twice", "take_twice", "inject_response", "rewrite_url",
-                   "set_metadata", "take_close_session_release", "return_true"]
+                   "set_metadata", "take_close_session_release", "return_true", "set_cap_data"]
 POINTS = [("hook", i, stage) for i in range(3) for stage in ("request", "response")] + \
          [("session_sub",), ("region_sub",), ("logger",), ("malformed_body",)]
 
@@ -88,6 +89,13 @@ class Addon:
             flow.request.url = flow.request.url + "?rewritten=%d" % self.idx
             run.expect_url_suffix = "?rewritten=%d" % self.idx
             return None
+        if b == "set_cap_data":
+            # an addon re-attributes the flow (what the proxy itself does for FirestormBridge / login responses)
+            if stage == "response":
+                other = run.w.sessions[1]
+                flow.cap_data = CapData("AddonCap%d" % self.idx, weakref.ref(other.regions[0]), weakref.ref(other), "https://addon.example/cap", CapType.NORMAL)
+                run.expect_cap = ("AddonCap%d" % self.idx, str(other.id), str(other.regions[0].circuit_addr))
+            return None
         if b == "set_metadata":
             flow.can_stream = False
             flow.metadata["addon_note"] = "n%d" % self.idx
@@ -127,6 +135,7 @@ class Run:
         self.taken = []
         self.errors = []
         self.expect_url_suffix = None
+        self.expect_cap = None
         self.target_id = None
         self.addons = [Addon(i, self) for i in range(3)]
         self.logger = Logger(self)
@@ -301,6 +310,18 @@ def run_program(program):
             back = HTTPFlow.from_state(copy.deepcopy(state))
             if run.expect_url_suffix and not back.request.url.endswith(run.expect_url_suffix) and kind != "asset_wrapper":
                 out.append(("state:url-rewrite-lost", "addon's URL rewrite did not survive: %s" % back.request.url))
+            if run.expect_url_suffix and kind == "asset_wrapper" and stage == "request":
+                # the wrapper branch swaps the host (rewrite strategy) or answers 307 (redirect strategy); either way the
+                # addon's rewrite of path/query is part of the request now
+                loc = back.response.headers.get("Location") if back.response is not None and back.response.status_code == 307 else None
+                if not back.request.url.endswith(run.expect_url_suffix) or (loc is not None and not loc.endswith(run.expect_url_suffix)):
+                    out.append(("state:url-rewrite-lost:wrapper", "addon's URL rewrite did not survive the wrapper handling: url %s, Location %r" % (
+                        back.request.url, loc)))
+            if run.expect_cap is not None and stage == "response" and kind != "login":
+                ser2 = back.metadata.get("cap_data_ser")
+                got_cap = (ser2.cap_name, ser2.session_id, ser2.region_addr) if ser2 else None
+                if got_cap != run.expect_cap:
+                    out.append(("state:reattribution-lost", "flow re-attributed to %r in the main process came back as %r" % (run.expect_cap, got_cap)))
             if behaviour == "inject_response" and kind != "asset_wrapper" and (back.response is None or back.response.status_code != 418 or not back.metadata.get("response_injected")):
                 out.append(("state:injected-response-lost", "addon's injected response did not survive (%r, injected=%r)" % (
                     back.response and back.response.status_code, back.metadata.get("response_injected"))))
